@@ -37,6 +37,15 @@ def dims(init):
     return N, F
 
 
+def true_total(pre):
+    """Total demand addressed to each industry: the row sums of the demand matrix itself (the
+    implementation's cached total is checked against it by dtot.coherent, not trusted here)."""
+    dem = pre.get("dem")
+    if dem is None or dem.ndim != 2:
+        return pre["dtot"]
+    return dem.sum(axis=1)
+
+
 # ---------------------------------------------------------------------------
 def mon_c03(trace):
     out = []
@@ -50,7 +59,7 @@ def mon_c03(trace):
             continue
         x, cap, opt, cons = st["prod_post"], st["cap"], st["opt"], st["cons"]
         pre = st["prod_pre"]
-        dtot = pre["dtot"]
+        dtot = true_total(pre)
         stock = pre["stock"]
         t = st["t"]
         if not np.all(np.isfinite(x)):
@@ -230,7 +239,7 @@ def mon_c06(trace):
             c = _first_bad(~((Z0 == 0) & (o != 0)))
             out.append(_fail("C06", trace, t, "orders placed with a non-supplier", o[c], 0.0, c))
         cap = init["X0"] * (1 - pre["delta"]) * pre["alpha"]
-        opt = np.fmin(pre["dtot"], cap)
+        opt = np.fmin(true_total(pre), cap)
         need, goal = need_float(init, pre["stock"], opt, pre["prod"])
         tot = o.reshape(nR, nS, N).sum(axis=0)
         if init["alt"]:
@@ -278,7 +287,7 @@ def mon_c14(trace):
         if "over_pre" in st and "over_post_alpha" in st:
             pre = st["over_pre"]
             a0, a1 = pre["alpha"], st["over_post_alpha"]
-            d, x = pre["dtot"], pre["prod"]
+            d, x = true_total(pre), pre["prod"]
             if not (np.all(np.isfinite(a1)) and np.all(np.isfinite(d)) and np.all(np.isfinite(x))):
                 out.append(_fail("C14", trace, t, "non-finite input of the overproduction update", sig="nonfinite"))
                 continue
@@ -290,7 +299,8 @@ def mon_c14(trace):
                 if np.any(bad):
                     f = _first_bad(~bad)
                     out.append(_fail("C14", trace, t, "overproduction rose although demand was met", a1[f], a0[f], f))
-                want = a0 + (amax - a0) * z * rate
+                # (capped at the maximum: only reachable when a step is longer than the characteristic time)
+                want = np.minimum(amax, a0 + (amax - a0) * z * rate)
                 ok = _close(a1[rose], want[rose], scale=1.0)
                 if not np.all(ok):
                     f = int(np.flatnonzero(rose)[_first_bad(ok)[0]])
@@ -321,6 +331,16 @@ def mon_finite(trace, prop="C20"):
                     kl = kl + tr["dmg"]
             if np.any(kl > K * (1 + 1e-12)):
                 out.append(_fail(prop, trace, t, "impact larger than the capital stock accepted silently", sig="overkill-accepted"))
+        dem = (st.get("prod_pre") or {}).get("dem")
+        if dem is not None and np.all(np.isfinite(dem)) and dem.size and np.any(dem < -1e-9 * (1 + np.abs(dem).max())):
+            out.append(_fail(prop, trace, t, "negative demand", float(dem.min()), 0.0, sig="negative-demand"))
+        for tr_ in st.get("reb_post") or []:
+            for key_ in ("rem_i", "rem_h", "dmg", "hdmg"):
+                v_ = tr_.get(key_)
+                if v_ is not None and v_.size and np.all(np.isfinite(v_)) and np.any(v_ < 0):
+                    out.append(_fail(prop, trace, t, f"negative remaining damage / reconstruction demand ({key_})", float(v_.min()), 0.0,
+                                     sig="negative-remaining"))
+                    break
         for key in ("prod_post", "cap", "opt", "ord_post", "over_post_alpha"):
             v = st.get(key)
             if v is not None and not np.all(np.isfinite(v)):
